@@ -33,6 +33,42 @@ CLAIMED = {
          "Each round's verdict must equal satisfiability of base AND that round's assumptions only; Sat models must satisfy every base clause (unit clauses included) and all current assumptions; Assume returning Unsat must be justified.",
          "n <= 20 (truth table per round). Bases are CNF via ParseSliceNb.",
          "DESIGN.md 4/C10"),
+ "C06": ("rapid generation of CNF formulas (small odd shapes, parity/pigeonhole, threshold 3-SAT) x certificate channel mode x lowered learned-clause limit; every emitted trace replayed by an independent RUP checker (literal-set semantics); differential with certification off",
+         "Unsat: each line must be RUP w.r.t. the formula and earlier lines and the empty clause RUP-derivable at the end; Sat: each line a consequence (truth table / RUP / DPLL); verdict and model validity identical with certification off.",
+         "Trusts oracle.RUP, truth table and DPLL. 'Empty clause derivable' is checked as derivability, not as the presence of a '0' line.",
+         "DESIGN.md 4/C06"),
+ "C07": ("rapid generation of structured unsat/sat CNF (cores + padding, disjoint/overlapping cores, pigeonhole, repeated clauses) x 4 extraction methods called twice; truth-table MUS predicates",
+         "Result must be a sub-multiset of the input, unsatisfiable, and minimal (every single-clause removal satisfiable); satisfiable input => error and nil; the receiver must be deep-equal before and after.",
+         "Problems are built through explain.ParseCNF with a matching header; clauses over distinct variables (DESIGN 7.5).",
+         "DESIGN.md 4/C07"),
+ "C08": ("rapid generation of (problem, certificate) pairs: genuine solver traces, mutated traces (literal dropped/flipped, line deleted, lines swapped), random clauses, non-RUP consequences, non-consequences; both entry points; truth-table entailment + independent RUP oracle",
+         "Asserts exactly the stated directions: valid => every examined line is a consequence; all lines RUP => valid; problem unchanged and same answer on re-check; UnsatSubset: sub-multiset and unsat, error on sat input. Valid/invalid split is measured and floored.",
+         "Certificate literals stay within the declared variables. Lines that are consequences but not RUP may go either way.",
+         "DESIGN.md 4/C08"),
+ "C11": ("rapid generation of formula trees (all connectives, empty and/or, constants, exactly-one groups of 1..9 names, every polarity) against an own evaluator over all assignments",
+         "nil <=> unsatisfiable; otherwise the returned assignment completed in every way on omitted names satisfies the formula. One open known finding (negated exactly-one group of more than 4 names) is reported by witness and signature; everything else is a violation.",
+         "Names <= 14. A failure on a formula containing a >4-name group at non-positive polarity is attributed to the open finding c11-negated-big-unique (sub-check trees-any-polarity); the main sub-check places such groups only positively.",
+         "DESIGN.md 4/C11"),
+ "C12": ("rapid generation of formula trees; the exported DIMACS bytes are parsed by an own strict reader and all models of the exported CNF are enumerated; two-directional model comparison through the name table",
+         "Well-formedness (header counts, literal range, name table with distinct in-range indices of known names) and exact model correspondence: every export model restricted and extended over eliminated names satisfies the formula, every formula model extends to an export model.",
+         "Exports with more than 20 variables are skipped as inconclusive (counted). Exactly-one groups of >4 names only at positive polarity, as the property states.",
+         "DESIGN.md 4/C12"),
+ "C13": ("semantic object -> text through own writers with layout knobs (rapid-generated), parsed by the four readers; oracle: problem evaluator on exported data vs truth table, clause-list equality (explain), brute-force optimum and pinned-assignment costs (OPB/WCNF); thorough adds native go fuzzing of the knob vectors",
+         "For each generated text the parsed problem must have exactly the text's models (and, for OPB/WCNF, the text's cost for the optimum and for pinned assignments); no error, no panic. Only layouts the published formats allow are produced (no tabs in OPB/WCNF, one WCNF clause per line).",
+         "Writers in harness/texts define what each text means; DESIGN 7.6 lists what is deliberately not generated.",
+         "DESIGN.md 4/C13"),
+ "C14": ("differential property-based testing: each generated CNF / cardinality / PB problem solved with the cutting-planes strategy off and on (with/without prior at-most-one detection, with/without cost); verif hook hands every learned constraint to a truth-table implication check; clock-free step watchdog",
+         "Same verdict and optimum as without the strategy and as brute force; valid model; no panic; termination (10^6 loop iterations on n<=12 is a failure); every constraint learned during a decision run is implied by the original problem.",
+         "Implication of learned constraints is claimed for Solve runs (an optimisation run also learns from the bound constraints it adds) and checked for n<=20.",
+         "DESIGN.md 4/C14"),
+ "C15": ("rapid generation of clique-rich CNF/PB problems; model set of the parsed problem evaluated from exported data before/after DetectAtMostOne vs truth table; then Solve/CountModels/Optimal after detection vs truth",
+         "Same variables and exactly the same model set before and after detection; verdict, count and optimum unchanged.",
+         "n <= 9. The problem evaluator (gs.ProblemPred) is itself cross-checked against the truth table before detection.",
+         "DESIGN.md 4/C15"),
+ "C17": ("grammar-based generation: syntax trees rendered with every legal parenthesisation/whitespace choice (positive) and token-level corruptions filtered by an own recogniser of the documented grammar (negative); oracle = own evaluator vs Formula.Eval under all assignments",
+         "Positive texts must parse to a formula equivalent to the documented reading (priorities ; = -> | & ^, right nesting); negative texts must give an error and a nil formula, never a panic.",
+         "Identifiers are Go identifiers that are not keywords (the scanner is text/scanner in Go mode).",
+         "DESIGN.md 4/C17"),
 }
 checks = []
 for p in props:
